@@ -3,8 +3,10 @@ name `datetime` of pjplan.schedule is replaced by a subclass whose now() returns
 no source hook), builds resources / outside tasks / the WBS through the public API, records the
 abstract input the scheduler sees (orders taken from a clone()), runs calc (twice on one scheduler
 object, once on a fresh one, once with another clock) and records the observation."""
+import math
 import signal
 import time
+from fractions import Fraction
 from datetime import datetime, timedelta
 
 from harness.impl.util import from_us, to_us, exc_code, main
@@ -40,14 +42,49 @@ def num(e, as_float):
 
 
 def eighths(x):
+    """amount as an exact rational (scaled to integers by finalize)"""
     if x is None:
         return None
-    v = x * 8
-    if isinstance(v, float):
-        if v != int(v):
-            raise OffGrid('amount %r is not a multiple of 1/8' % x)
-        v = int(v)
-    return v
+    return Fraction(x)
+
+
+def finalize(out, offgrid):
+    """Scale every amount/capacity of the output by one power of two K so that all become integers.
+    On the dyadic grid K = 8 (eighths) and anything that does not fit is reported as off-grid."""
+    fr = []
+
+    def walk(x):
+        if isinstance(x, Fraction):
+            fr.append(x)
+        elif isinstance(x, dict):
+            for v in x.values():
+                walk(v)
+        elif isinstance(x, (list, tuple)):
+            for v in x:
+                walk(v)
+    walk(out)
+    K = 8
+    for f in fr:
+        if f.denominator > K:
+            K = f.denominator * (K // math.gcd(K, f.denominator))
+    if not offgrid and K != 8:
+        raise OffGrid('amount not a multiple of 1/8')
+    if K > 2 ** 120:
+        raise OffGrid('amounts need a scale above 2^120')
+
+    def conv(x):
+        if isinstance(x, Fraction):
+            v = x * K
+            assert v.denominator == 1
+            return int(v)
+        if isinstance(x, dict):
+            return {k: conv(v) for k, v in x.items()}
+        if isinstance(x, (list, tuple)):
+            return [conv(v) for v in x]
+        return x
+    res = conv(out)
+    res['K'] = K
+    return res
 
 
 class OffGrid(Exception):
@@ -83,14 +120,24 @@ def snapshot(wbs, extra_tasks):
     return snap
 
 
-def tabulate(res, lo_day, n_days):
-    """capacity (eighths) of the resource for days lo..lo+n-1 plus weekly patterns before/after."""
+def tabulate(res, lo_day, n_days, offgrid=False, notes=None):
+    """capacity of the resource for days lo..lo+n-1 plus weekly patterns before/after.  The capacity of a
+    day is what the resource's CALENDAR answers (None = 0); the resource itself must report the same."""
     def cap(day, tod=0):
-        v = res.get_available_units(from_us(day * DAY_US + tod), None)
-        e = v * 8
-        if e != int(e) or int(e) not in ALLOWED_CAPS:
+        d = from_us(day * DAY_US + tod)
+        v = res.get_available_units(d, None)
+        cal = getattr(res, 'calendar', None)
+        if isinstance(res, Resource) and cal is not None:
+            c = cal.get_available_units(d)
+            c = 0 if c is None else c
+            if c != v or v is None:
+                if notes is not None:
+                    notes.append('resource %r reports %r for %s, its calendar %r' % (res.name, v, d, c))
+                v = c
+        e = Fraction(v)
+        if not offgrid and (e * 8).denominator != 1 or (not offgrid and int(e * 8) not in ALLOWED_CAPS):
             raise OffGrid('capacity %r outside the dyadic grid' % v)
-        return int(e)
+        return e
     tab = [cap(d) for d in range(lo_day, lo_day + n_days)]
     for d in range(lo_day, lo_day + n_days, 3):
         if cap(d, 13 * 3600_000_000 + 7) != tab[d - lo_day]:
@@ -121,9 +168,10 @@ def observe_schedule(sch, res_index):
     seen = []
     for r in rows:
         if r.date != REAL_DATETIME(r.date.year, r.date.month, r.date.day):
-            raise OffGrid('usage row date is not a midnight')
+            out['row_not_a_day'] = str(r.date)      # the row is attributed to its day (floor)
         if id(r.task) not in tix or r.resource.name not in res_index:
             out['rows'].append([9999, to_us(r.date) // DAY_US, 9999, eighths(r.units)])
+            out['row_unknown_task_or_resource'] = True
             continue
         out['rows'].append([res_index[r.resource.name], to_us(r.date) // DAY_US, tix[id(r.task)], eighths(r.units)])
         key = (r.resource.name, r.date)
@@ -174,9 +222,17 @@ def shape_problems(wbs, result):
     return probs
 
 
+def raw(spec, key):
+    """an amount of a task spec: 'est_raw'/'spent_raw' = float given as hex (off-grid stream), else eighths"""
+    if spec.get(key + '_raw') is not None:
+        return float.fromhex(spec[key + '_raw'])
+    return num(spec.get(key), spec.get('est_float', False))
+
+
 def run_case(case):
     out = {}
     t_begin = time.time()
+    offgrid = bool(case.get('offgrid'))
     try:
         set_clock(case['now'])
         fwd = case['dir'] == 'fwd'
@@ -203,8 +259,7 @@ def run_case(case):
             t = Task(spec['id'], spec.get('name', 't%d' % spec['id']), resource=spec.get('resource'),
                      start=from_us(spec.get('start')), end=from_us(spec.get('end')),
                      milestone=spec.get('milestone', False),
-                     estimate=num(spec.get('est'), spec.get('est_float', False)),
-                     spent=num(spec.get('spent'), spec.get('est_float', False)), **kw)
+                     estimate=raw(spec, 'est'), spent=raw(spec, 'spent'), **kw)
             if spec.get('parent') is None:
                 wbs // t
             else:
@@ -279,6 +334,16 @@ def run_case(case):
             if fwd:
                 return ForwardScheduler(start=from_us(case['pbound']), **kw)
             return BackwardScheduler(end=from_us(case['pbound']), **kw)
+        # a first calculation, then the calendars of some resources are edited: the observed calculation
+        # must work with the calendars as they are NOW (resources are reused across calculations)
+        if case.get('edit_calendars'):
+            try:
+                make().calc(wbs)
+            except BaseException:  # noqa
+                pass
+            for name, cal in case['edit_calendars']:
+                if name in supplied:
+                    supplied[name].calendar = build_calendar(cal)
         before = snapshot(wbs, ext)
         sched = make()
         signal.signal(signal.SIGALRM, _alarm)
@@ -307,7 +372,10 @@ def run_case(case):
         if sch is not None:
             for r in sch.resources:
                 actual[r.name] = r
-        out['rs'] = [tabulate(actual.get(n) or supplied.get(n) or Resource(n), lo, n_days) for n in res_names]
+        notes = []
+        out['rs'] = [tabulate(actual.get(n) or supplied.get(n) or Resource(n), lo, n_days, offgrid, notes) for n in res_names]
+        if notes:
+            out['resource_differs_from_calendar'] = notes[:3]
 
         if sch is not None:
             out['obs'] = observe_schedule(sch, res_index)
@@ -327,6 +395,7 @@ def run_case(case):
                 out['again_exc'] = '%s: %s' % (type(ex).__name__, str(ex)[:200])
             out['again'] = again
             out['pure2'] = snapshot(wbs, ext) == before
+        out = finalize(out, offgrid)
     except OffGrid as ex:
         return {'offgrid': str(ex)}
     out['wall'] = time.time() - t_begin
